@@ -1,8 +1,7 @@
 /-
   C13 — first-n reads are prefixes of full reads.
 -/
-import BS.Proofs.Region
-import BS.Impl.Data
+import BS.Proofs.ReadRange
 
 namespace BS.Props.C13
 open BS BS.Impl
@@ -36,6 +35,16 @@ theorem first_n_is_prefix (p n : Nat) (hn : 1 ≤ n) (cb : Option Bool)
       by_cases hlen : (e :: es).length < n
       · rw [h1 (by simpa using hlen)] at hf; simp at hf
       · rw [h2 (by simp at hlen ⊢; omega)] at hf; simp at hf
+
+/-- **For every pair of bounds**: `read_first_n(n, range)` with n ≥ 1 returns the first
+`min n k` of the `k` entries `read_all(range)` returns (an empty result or a range error
+when there are none), in every state satisfying the session invariant. -/
+theorem first_n_of_any_range (hdr ihdr : Bytes) (dir : Dir) (s : Sess) (e : Entry) (es : List Entry)
+    (hinv : SessInv hdr ihdr dir s (e :: es)) (n : Nat) (hn : 1 ≤ n) (sb eb : Bound) :
+    apiReadFirstN dir s n sb eb = .ok ((Spec.filterBounds (toSpecBound sb) (toSpecBound eb) (e :: es)).take n) ∨
+    (Spec.filterBounds (toSpecBound sb) (toSpecBound eb) (e :: es) = [] ∧
+      ∃ c, apiReadFirstN dir s n sb eb = .error (.err ("InvalidRange/" ++ c))) :=
+  readFirstN_range hdr ihdr dir s e es hinv n hn sb eb
 
 /-- the same statement for the processor alone: any list of entries, any n ≥ 1 -/
 theorem processor_takes_prefix (n : Nat) (hn : 1 ≤ n) (xs : List Entry) :
